@@ -260,6 +260,34 @@ func runCoCase(c coCase, st *coStats) *fail {
 			if f := expect(tClunk(40), refcodec.New(refcodec.Rclunk, 0)); f != nil {
 				return f
 			}
+		case "lock-short-after-long":
+			// a complete Tlock with a client id, then Tlock frames that end after proc_id,
+			// inside proc_id and after the client id's length: rejected, and no Lock call
+			// reaches the backend with the earlier client id
+			mock.Push("Lock", &mockfs.Result{})
+			long := refcodec.New(refcodec.Tlock, 0, "fid", 0, "type", 1, "flags", 0, "start", 1, "length", 2, "proc_id", 77, "client_id", coName(max(stp.N, 1)%100+4, stp.Salt))
+			if _, f := call(long); f != nil {
+				return f
+			}
+			for _, cutAt := range []int{7 + 4 + 1 + 4 + 8 + 8 + 4, 7 + 4 + 1 + 4 + 8 + 8 + 2, 7 + 4 + 1 + 4 + 8 + 8 + 4 + 1} {
+				tag++
+				short := refcodec.Encode(withTag(refcodec.New(refcodec.Tlock, 0, "fid", 0, "type", 1, "flags", 0, "start", 1, "length", 2, "proc_id", 78, "client_id", "zz"), tag))
+				short = append([]byte{}, short[:cutAt]...)
+				binary.LittleEndian.PutUint32(short, uint32(len(short)))
+				before := mock.NCalls()
+				raw, err := s.RPC(short)
+				if err != nil {
+					return failf("no-reply:short-frame", "%s: %v", what, err)
+				}
+				if _, isErr := refcodec.Errno(raw); !isErr {
+					return failf("carry-over:truncated-frame-completed", "%s: a Tlock frame of %d bytes (it ends before its client id is complete) was answered %x instead of being rejected", what, cutAt, raw[:min(len(raw), 40)])
+				}
+				for _, rc := range mock.Calls(before) {
+					if rc.Op == "Lock" {
+						return failf("carry-over:truncated-frame-completed", "%s: a truncated Tlock reached the backend's Lock with client id %.40q", what, rc.Name)
+					}
+				}
+			}
 		case "short-after-long":
 			// a complete Tsymlink with long strings, then - on this and the other
 			// connections' shared buffers - a Tsymlink frame that ends after its first
@@ -715,7 +743,7 @@ func runOverlapCase(c overlapCase) *fail {
 	return nil
 }
 
-var coKinds = []string{"walk", "walkga", "write", "read", "readdir", "symlink", "xattr", "renameat", "attach", "setxattr", "short-after-long", "setattr"}
+var coKinds = []string{"walk", "walkga", "write", "read", "readdir", "symlink", "xattr", "renameat", "attach", "setxattr", "short-after-long", "setattr", "lock-short-after-long"}
 
 func genCoCase(rt *rapid.T) coCase {
 	c := coCase{Conns: rapid.IntRange(1, 3).Draw(rt, "conns")}
